@@ -254,6 +254,7 @@ pub struct Stats {
 	pub ended: u64,
 	pub seeks: u64,
 	pub outside_seeks: u64,
+	pub flips: u64,
 	pub loop_changes: u64,
 	pub pair_checks: u64,
 }
@@ -668,6 +669,27 @@ pub fn run(ctx: &mut Ctx) {
 			Err(p) => ctx.violation("rev", i, &format!("panic: {}", p.first().map(|p| p.sig()).unwrap_or_default()), J::Null),
 		}
 	}
+	// 5. the playback rate changes sign at run time (+1 <-> -1, instantly): the direction changes with the command
+	let nf = ctx.t(20_000u64, 1_000_000u64);
+	for i in 0..nf {
+		if !ctx.owns("flip", i) {
+			continue;
+		}
+		if !ctx.replaying() && !ctx.time_left(0.5) {
+			break;
+		}
+		let mut r = Rng::for_case(ctx.seed, 404, i);
+		crate::monitors::set_current(ctx, "flip", i, "direction flip", false);
+		let res = super::guarded(|| run_direction_flip(&mut r, &mut stats));
+		crate::monitors::clear_current();
+		ctx.eval();
+		match res {
+			Ok(Ok(k)) => ctx.distinct_key(0xC04_0005_0000 | k),
+			Ok(Err(e)) => ctx.violation("flip", i, &e, J::Null),
+			Err(p) => ctx.violation("flip", i, &format!("panic: {}", p.first().map(|p| p.sig()).unwrap_or_default()), J::Null),
+		}
+	}
+	ctx.count("direction_flips_checked", stats.flips);
 	ctx.count("frames_observed", stats.frames);
 	ctx.count("frames_bit_exact_checked", stats.exact);
 	ctx.count("frames_hermite_checked", stats.hermite);
@@ -764,4 +786,96 @@ pub fn confirm(key: &str) -> Option<Option<String>> {
 		}
 		_ => None,
 	}
+}
+
+/// A long index-coded sound (optionally reversed) at rate +1 on a device running at its own rate; at random callback
+/// boundaries the playback rate is set to the opposite sign (instantly). kira moves a parameter from its old to its new
+/// value linearly within the callback in which the command is read, so that callback is transitional (the speed passes
+/// through zero and the position ends up between two frames). From the next callback on the position accumulates
+/// rate x dt again: the source is a linear ramp, which the Hermite interpolation reproduces exactly, so consecutive
+/// outputs differ by exactly one source frame in the new direction, starting no further than one callback's worth of
+/// frames from the frame heard when the command arrived. Returns a class key.
+fn run_direction_flip(r: &mut Rng, stats: &mut Stats) -> Result<u64, String> {
+	let len = r.usize_in(8_000, 16_000);
+	let sr = *r.pick(&[8000u32, 44100, 48000]);
+	let chunk = *r.pick(&[8usize, 16, 64, 128, 333]);
+	let reverse = r.chance(0.4);
+	let frames: Vec<Frame> = (0..len).map(|i| Frame::new((i + 1) as f32, -((i + 1) as f32))).collect();
+	let st = StaticSoundSettings::new().reverse(reverse);
+	let data = StaticSoundData { sample_rate: sr, frames: frames.into(), settings: st, slice: None };
+	let (mut sound, mut handle): (Box<dyn Sound>, StaticSoundHandle) = data.into_sound().map_err(|_| "into_sound".to_string())?;
+	let info = MockInfoBuilder::new().build();
+	let dt = 1.0 / sr as f64;
+	let mut out = vec![Frame::ZERO; chunk];
+	// direction in source-frame terms
+	let mut dir: f64 = if reverse { -1.0 } else { 1.0 };
+	let mut rate = 1.0f64;
+	let mut prev: Option<f64> = None;
+	let mut at_flip = 0.0f64;
+	let mut log: Vec<String> = vec![];
+	let mut played = 0usize;
+	let mut next_flip = r.usize_in(2500 / chunk + 1, 4000 / chunk + 2);
+	let ncb = 12_000 / chunk;
+	let mut nflips = 0u64;
+	let mut cbs_since_flip = 1000usize;
+	let ctxs = |log: &Vec<String>| format!("len {} sr {} chunk {} reverse {}; {}", len, sr, chunk, reverse, log.join("; "));
+	for cb in 0..ncb {
+		if cb == next_flip && prev.is_some() {
+			rate = -rate;
+			dir = -dir;
+			handle.set_playback_rate(PlaybackRate(rate), kira::Tween { duration: std::time::Duration::ZERO, ..Default::default() });
+			cbs_since_flip = 0;
+			at_flip = prev.unwrap();
+			log.push(format!("cb{} set_playback_rate({}) while frame {} is heard", cb, rate, at_flip));
+			// the next flip comes before playback can run back to where it began
+			next_flip = cb + r.usize_in(2, (1800 / chunk).max(3));
+			nflips += 1;
+			stats.flips += 1;
+		}
+		sound.on_start_processing();
+		sound.process(&mut out[..chunk], dt, &info);
+		stats.frames += chunk as u64;
+		for (i, o) in out[..chunk].iter().enumerate() {
+			if o.left == 0.0 && o.right == 0.0 {
+				if handle.state() == PlaybackState::Stopped || played < 4 {
+					prev = None;
+					continue;
+				}
+				return Err(format!("cb {} frame {}: silence while the sound is {:?} [{}]", cb, i, handle.state(), ctxs(&log)));
+			}
+			played += 1;
+			// the case ends when playback comes near either end of the source (the window then holds frames of silence)
+			if o.left.is_finite() && (o.left < 10.0 || o.left > len as f32 - 10.0) && played > 200 {
+				return Ok(((reverse as u64) << 12) | ((chunk as u64 % 7) << 8) | nflips.min(31));
+			}
+			if !(o.left.is_finite() && o.left >= 0.0 && o.left <= len as f32 + 1.0 && o.left == -o.right) {
+				return Err(format!("cb {} frame {}: the output ({},{}) is not within the source's range [{}]", cb, i, o.left, o.right, ctxs(&log)));
+			}
+			let cur = o.left as f64 - 1.0;
+			if cbs_since_flip == 0 {
+				// transitional callback
+				prev = Some(cur);
+				continue;
+			}
+			if cbs_since_flip == 1 && i == 0 && (cur - at_flip).abs() > chunk as f64 + 5.0 {
+				return Err(format!("cb {} frame 0: one callback after the rate changed sign at frame {} playback is at frame {} [{}]", cb, at_flip, cur, ctxs(&log)));
+			}
+			if let Some(p) = prev {
+				// (the first step after the transitional callback is made with that callback's last speed: checked from the second on)
+				if !(cbs_since_flip == 1 && i == 0) && ((cur - p) - dir).abs() > 0.01 {
+					return Err(format!(
+						"cb {} frame {}: heard source position {} after {}, in callback {} after the playback rate was set to {}: the source is to be traversed in steps of {} [{}]",
+						cb, i, cur, p, cbs_since_flip, rate, dir, ctxs(&log)
+					));
+				}
+				stats.exact += 1;
+			}
+			prev = Some(cur);
+		}
+		cbs_since_flip = cbs_since_flip.saturating_add(1);
+		if handle.state() == PlaybackState::Stopped {
+			break;
+		}
+	}
+	Ok(((reverse as u64) << 12) | ((chunk as u64 % 7) << 8) | nflips.min(31))
 }
